@@ -9,6 +9,7 @@
 //!   root            `<hex> g<hex first guess | - | !>`      (tap = raw f64 bits of `approx_log2(x)/degree`; the guess is
 //!                                                            `approx_pow2` of exactly that float; `!` = approx_pow2 gave None)
 //!   apow2           `some <hex>` | `none`                   (approx_pow2 of the f64 with the given raw bits)
+//!   apow2i          `some <hex>` | `none`                   (approx_pow2 of the signed decimal integer argument as f64)
 //!   alog2           `<hex raw f64 bits>`                    (approx_log2)
 use ruint::verif_hooks::take_tap;
 use vh::*;
@@ -82,6 +83,11 @@ fn run<const B: usize, const L: usize>(p: &[&str]) -> String {
             let e = f64::from_bits(u64::from_str_radix(p[2], 16).unwrap());
             opt(U::<B, L>::approx_pow2(e))
         }
+        "apow2i" => {
+            let n: i64 = p[2].parse().unwrap();
+            #[allow(clippy::cast_precision_loss)]
+            opt(U::<B, L>::approx_pow2(n as f64))
+        }
         "alog2" => {
             let x: U<B, L> = u(p[2]);
             format!("{:x}", x.approx_log2().to_bits())
@@ -90,10 +96,60 @@ fn run<const B: usize, const L: usize>(p: &[&str]) -> String {
     }
 }
 
+fn dispatch(p: &[&str]) -> String {
+    let bits: usize = p[1].parse().unwrap();
+    dispatch_bits!(bits, run, (p), [0, 1, 2, 3, 4, 5, 6, 7, 8, 12, 16, 31, 32, 33, 60, 63, 64, 65, 72, 96,
+        100, 127, 128, 129, 160, 192, 200, 250, 255, 256, 257, 320, 384, 512, 521, 1024, 4096])
+}
+
+/// Per-case watchdog (termination of `root`/`log` is part of C13): every case runs on a worker thread;
+/// if it does not answer within `C13_CASE_TIMEOUT_MS` (default 3 s; the slowest legitimate case takes
+/// milliseconds) the process flushes what it has and exits, so that the orchestrator records `abort`
+/// for exactly that case and resumes with the next one (same protocol as a crashed process).
+/// Otherwise identical to `vh::run_lines` (catch_unwind, `panic` outcome, HOOKS line).
 fn main() {
-    run_lines(|p| {
-        let bits: usize = p[1].parse().unwrap();
-        dispatch_bits!(bits, run, (p), [0, 1, 2, 3, 4, 5, 6, 7, 8, 12, 16, 31, 32, 33, 60, 63, 64, 65, 72, 96,
-            100, 127, 128, 129, 160, 192, 200, 250, 255, 256, 257, 320, 384, 512, 521, 1024, 4096])
-    });
+    use std::io::{BufRead, Write};
+    use std::sync::mpsc;
+    std::panic::set_hook(Box::new(|_| {}));
+    let limit = std::time::Duration::from_millis(
+        std::env::var("C13_CASE_TIMEOUT_MS").ok().and_then(|v| v.parse().ok()).unwrap_or(3000),
+    );
+    let (tx_case, rx_case) = mpsc::channel::<String>();
+    let (tx_res, rx_res) = mpsc::channel::<String>();
+    std::thread::Builder::new()
+        .stack_size(256 << 20)
+        .spawn(move || {
+            for line in rx_case {
+                let parts: Vec<&str> = line.split_whitespace().collect();
+                let r = std::panic::catch_unwind(std::panic::AssertUnwindSafe(|| dispatch(&parts)));
+                if tx_res.send(r.unwrap_or_else(|_| "panic".to_string())).is_err() {
+                    return;
+                }
+            }
+        })
+        .unwrap();
+    let stdin = std::io::stdin();
+    let stdout = std::io::stdout();
+    let mut out = std::io::BufWriter::new(stdout.lock());
+    for line in stdin.lock().lines() {
+        let line = line.unwrap();
+        if line.split_whitespace().next().is_none() {
+            writeln!(out).unwrap();
+            continue;
+        }
+        tx_case.send(line).unwrap();
+        match rx_res.recv_timeout(limit) {
+            Ok(s) => writeln!(out, "{s}").unwrap(),
+            Err(_) => {
+                // non-terminating (or absurdly slow) case
+                out.flush().unwrap();
+                std::process::exit(3);
+            }
+        }
+    }
+    let snap = ruint::verif_hooks::snapshot();
+    let nz: Vec<String> =
+        snap.iter().enumerate().filter(|(_, c)| **c != 0).map(|(i, c)| format!("{i}:{c}")).collect();
+    eprintln!("HOOKS {}", nz.join(" "));
+    out.flush().unwrap();
 }
